@@ -323,6 +323,17 @@ def proof_obligations(res, prop, modules, extra_obligations):
     if ok:
         thms, aok, aout = audit(prop)
     hits = grep_forbidden()
+    # every theorem stated in the property module(s) must be in the audit list (none escapes the axiom check)
+    unaudited = []
+    if ok and aok:
+        for m in modules:
+            try:
+                text = open(os.path.join(LEAN, "Dm", "Props", f"{m}.lean")).read()
+            except OSError:
+                continue
+            for n in re.findall(r"^\s*theorem\s+([^\s:({\[]+)", text, re.M):
+                if not any(full.endswith("." + n) for full in thms):
+                    unaudited.append(f"{m}.{n}")
     names = sorted(thms)
     n_thm = max(len(names), 1)
     discharged = 0
@@ -342,6 +353,8 @@ def proof_obligations(res, prop, modules, extra_obligations):
         res.coverage["lean_audit_output"] = aout[-3000:]
     for h in hits:
         failed.append("forbidden construct: " + h)
+    for n in unaudited:
+        failed.append(f"theorem {n} is not in Dm/Audit/{prop}.lean (#print axioms missing)")
     for n, ax in bad_axioms.items():
         failed.append(f"theorem {n} depends on axioms {ax}")
     for name, eok in extra_obligations:
